@@ -63,6 +63,7 @@ type Contract struct {
 	AssumeRequires map[string]bool // callees whose preconditions are assumed at call sites of this function
 	MissingSites []string // `at call f#N` clauses whose call site no longer exists: reported as failed obligations
 	NoPanic     bool
+	PanicKinds  map[string]bool // `nopanic bounds nil ...`: only these kinds of panic are obligations (empty = all)
 	Pure        bool
 	Inline      bool
 	Opaque      bool
@@ -612,6 +613,12 @@ func (w *World) parseContracts(p *packages.Package) error {
 					last = nil
 				case "nopanic":
 					cur.NoPanic = true
+					for _, f := range strings.Fields(rest) {
+						if cur.PanicKinds == nil {
+							cur.PanicKinds = map[string]bool{}
+						}
+						cur.PanicKinds[f] = true
+					}
 					last = nil
 				case "pure":
 					cur.Pure = true
@@ -983,6 +990,13 @@ func (w *World) finishAtCalls() error {
 						}
 						if os.Getenv("GOVC_DEBUG_SITES") != "" {
 							fmt.Fprintf(os.Stderr, "site-scan %s: call %q\n", c.Key, name)
+						}
+						if strings.HasPrefix(ac.Callee, "(") {
+							// receiver-qualified: (*T).M or (T).M
+							if shortRecv(name) == ac.Callee {
+								sites = append(sites, in.Pos())
+							}
+							continue
 						}
 						if name == ac.Callee || strings.HasSuffix(name, "."+short) || name == short {
 							sites = append(sites, in.Pos())
@@ -1455,4 +1469,24 @@ func (w *World) constArrayInit(g *ssa.Global) (map[int64]*ssa.Const, bool) {
 		}
 	}
 	return nil, false
+}
+
+// shortRecv turns the full name of a method, "(*pkg/path.T).M", into "(*T).M"; other names are returned unchanged.
+func shortRecv(full string) string {
+	if !strings.HasPrefix(full, "(") {
+		return full
+	}
+	end := strings.Index(full, ")")
+	if end < 0 {
+		return full
+	}
+	recv := full[1:end]
+	star := ""
+	if strings.HasPrefix(recv, "*") {
+		star, recv = "*", recv[1:]
+	}
+	if i := strings.LastIndex(recv, "."); i >= 0 {
+		recv = recv[i+1:]
+	}
+	return "(" + star + recv + ")" + full[end+1:]
 }
